@@ -65,7 +65,7 @@ type director struct {
 	waiting    map[int64]string // instance -> condition it is currently blocked on
 	apiSeq     atomic.Int64
 	inflight   atomic.Int64
-	opsWG      sync.WaitGroup
+	opsN       atomic.Int64 // operations (steps) in flight; a WaitGroup would be reused while being waited for
 	heldOK     int
 	heldTO     int
 	stepsRun   int
@@ -121,6 +121,10 @@ func BuildProject(sc *Scenario) *types.Project {
 		if ps.BadWorkdir {
 			pc.WorkingDir = "/nonexistent/verif/dir"
 		}
+		if ps.ShutdownCmd {
+			// daemons are stopped through their shutdown command (the launcher is gone); it runs for real
+			pc.ShutDownParams.ShutDownCommand = "true"
+		}
 		if ps.HasReadyLine {
 			pc.ReadyLogLine = "READY"
 		}
@@ -153,6 +157,27 @@ func BuildProject(sc *Scenario) *types.Project {
 		Processes:   procs,
 		ShellConfig: command.DefaultShellConfig(),
 	}
+}
+
+func (d *director) anyDaemonUp() bool {
+	for _, ps := range d.sc.Cfg.Procs {
+		if ps.Daemon && d.daemonUp(ps.Name) {
+			return true
+		}
+	}
+	return false
+}
+
+// daemonUp: the process is a daemon whose launcher has gone and which is reported Launching / Launched
+func (d *director) daemonUp(proc string) bool {
+	for _, ps := range d.sc.Cfg.Procs {
+		if ps.Name == proc && ps.Daemon {
+			if st, err := d.runner.GetProcessState(proc); err == nil {
+				return st.Status == types.ProcessStateLaunched || st.Status == types.ProcessStateLaunching
+			}
+		}
+	}
+	return false
 }
 
 func (d *director) behaviour(proc string, attempt int) fakecmd.Behaviour {
@@ -309,9 +334,9 @@ func (d *director) onEvent(ev string, p string, i int64, f map[string]any) {
 	for _, st := range fire {
 		st := st
 		d.inflight.Add(1)
-		d.opsWG.Add(1)
+		d.opsN.Add(1)
 		go func() {
-			defer d.opsWG.Done()
+			defer d.opsN.Add(-1)
 			defer d.inflight.Add(-1)
 			if st.DelayTick > 0 {
 				time.Sleep(time.Duration(st.DelayTick) * fakecmd.Tick)
@@ -323,9 +348,9 @@ func (d *director) onEvent(ev string, p string, i int64, f map[string]any) {
 
 func (d *director) launchOp(op Op, done chan struct{}) {
 	d.inflight.Add(1)
-	d.opsWG.Add(1)
+	d.opsN.Add(1)
 	go func() {
-		defer d.opsWG.Done()
+		defer d.opsN.Add(-1)
 		defer d.inflight.Add(-1)
 		d.doOp(op)
 		if done != nil {
@@ -397,7 +422,7 @@ func (d *director) doOp(op Op) {
 		if op.Live {
 			kind = "live"
 		}
-		if !op.Late && !fakecmd.AliveProc(op.P) {
+		if !op.Late && !fakecmd.AliveProc(op.P) && !d.daemonUp(op.P) {
 			return // probes only run while the command is alive (late: a completion arriving after the end)
 		}
 		// completions of one check are serial in go-health; its consecutive-failure counter is reset when
@@ -418,6 +443,7 @@ func (d *director) doOp(op Op) {
 			fails++
 		}
 		d.mu.Unlock()
+		tracer.Emit("ProbeBegin", op.P, 0, "kind", kind)
 		delivered := r.VerifInjectProbe(op.P, kind, op.Ok, fails, "scripted probe failure")
 		if delivered {
 			d.mu.Lock()
@@ -547,9 +573,9 @@ func Run(sc *Scenario) *Result {
 			st := st
 			st.fired = true
 			d.inflight.Add(1)
-			d.opsWG.Add(1)
+			d.opsN.Add(1)
 			go func() {
-				defer d.opsWG.Done()
+				defer d.opsN.Add(-1)
 				defer d.inflight.Add(-1)
 				time.Sleep(time.Until(begin.Add(time.Duration(st.When.Tick) * fakecmd.Tick)))
 				d.doOp(st.Do)
@@ -588,8 +614,8 @@ func Run(sc *Scenario) *Result {
 		// is the project quiescent without having returned?  (C04: never waits forever)
 		quietSince := time.Now()
 		for !returned {
-			if fakecmd.Alive() > 0 {
-				break
+			if fakecmd.Alive() > 0 || d.anyDaemonUp() {
+				break // something is running (a launched daemon has no command of its own): not stuck
 			}
 			if d.inflight.Load()-int64(0) > 0 || tracer.SinceLast() < quietBeforeStuck {
 				if time.Since(quietSince) > 3*time.Second {
@@ -620,14 +646,12 @@ func Run(sc *Scenario) *Result {
 	}
 	active := func() bool { return tracer.Count("Unreg") < tracer.Count("Spawn") || fakecmd.Alive() > 0 }
 	waitOps := func(limit time.Duration) bool {
-		opsDone := make(chan struct{})
-		go func() { d.opsWG.Wait(); close(opsDone) }()
-		select {
-		case <-opsDone:
-			return true
-		case <-time.After(limit):
-			return false
+		for end := time.Now().Add(limit); time.Now().Before(end); time.Sleep(500 * time.Microsecond) {
+			if d.opsN.Load() == 0 {
+				return true
+			}
 		}
+		return d.opsN.Load() == 0
 	}
 	killTO := time.Duration(maxKillTO(sc)) * time.Second
 	// final shutdown(s) by the harness so that every scenario ends with nothing running, also when
